@@ -754,6 +754,8 @@ example : Good .pinned metadataV0Fmt = false := by decide
 example : Good .checked metadataV0Fmt = false := by decide   -- the loop heads stay unguarded: −1 still panics
 example : run .pinned (fun _ _ => 0) metadataV0Fmt [0xff, 0xff, 0xff, 0xfe] 0 = .panic 0 := by decide
 example : run .checked (fun _ _ => 0) metadataV0Fmt [0xff, 0xff, 0xff, 0xff] 0 = .panic 0 := by decide
+example : run .checked (fun _ _ => 0) metadataV0FmtGuarded [0xff, 0xff, 0xff, 0xff] 0 = .err .invalidArrayLength 4 0 := by decide
+example : run .checked (fun _ _ => 0) metadataV0FmtGuarded [0xff, 0xff, 0xff, 0xfe] 0 = .err .invalidArrayLength 4 0 := by decide
 example : run .pinned (fun _ _ => 0) memberMetadataFmt [0x00, 0x00, 0x7f, 0xff, 0xff, 0xff] 0
     = .err .insufficient 6 34359738352 := by decide
 example : run .pinned (fun _ _ => 0) recordFmt [0x1c, 0, 0, 0, 1, 1, 0x80, 0x80, 0x80, 0x80, 0x80, 0x80, 0x80, 0x80, 0x01] 0
